@@ -26,9 +26,11 @@ const CALL_ORDERS: [[u8; 3]; 8] = [[0, 1, 2], [1, 0, 2], [2, 1, 0], [1, 2, 0], [
 /// the order used for a range is a function of its contents, so that the big pattern families spread over all six
 pub fn check_split(c: &Contents) -> Option<Value> {
     let h: usize = c.iter().map(|(k, w)| k.id() * 7 + (*w as usize % 5)).sum::<usize>() + c.len();
-    // wide ranges: only the two orders without to_string() (formatting 1,326 combos per pattern would triple the cost);
-    // the second round of questions is left to the call-orders sub-check
-    if c.len() > 64 {
+    // wide ranges: only the two orders without to_string(); the second round of questions is left to the call-orders
+    // sub-check
+    // to_string() itself computes both views and then formats, so an order that includes it costs twice as much:
+    // a third of the small ranges get one of the six orders, the rest one of the two without to_string()
+    if c.len() > 64 || (h / 6) % 3 != 0 {
         check_split_in_order(c, 6 + h % 2, false)
     } else {
         check_split_in_order(c, h % 6, false)
